@@ -7056,7 +7056,7 @@ R_<TG_, TA_>::initialEnter() noexcept {
 		 i < SUBSTITUTION_LIMIT && _core.request;
 		 ++i)
 	{
-		//backup();
+		const Short requestedBackup = _core.registry.requested;
 
 		if (applyRequest(currentTransition,
 						 _core.request.destination))
@@ -7066,7 +7066,7 @@ R_<TG_, TA_>::initialEnter() noexcept {
 
 			if (cancelledByEntryGuards(currentTransition,
 									   pendingTransition))
-				FFSM2_BREAK();
+				_core.registry.requested = requestedBackup;
 			else
 				currentTransition = pendingTransition;
 
@@ -7139,7 +7139,7 @@ R_<TG_, TA_>::processTransitions(Transition& currentTransition) noexcept {
 		i < SUBSTITUTION_LIMIT && _core.request;
 		++i)
 	{
-		//backup();
+		const Short requestedBackup = _core.registry.requested;
 
 		if (applyRequest(currentTransition,
 						 _core.request.destination))
@@ -7149,7 +7149,7 @@ R_<TG_, TA_>::processTransitions(Transition& currentTransition) noexcept {
 
 			if (cancelledByGuards(currentTransition,
 								  pendingTransition))
-				;
+				_core.registry.requested = requestedBackup;
 			else
 				currentTransition = pendingTransition;
 
